@@ -24,14 +24,14 @@ func TestVerifConv(t *testing.T) {
 	}
 	if !r.ReplayOnly() {
 		// every API call of every pass of a few lifecycles as a single injection point, in every mode
-		nb := r.Pick(2, 40)
+		nb := r.Pick(6, 40)
 		for i := 0; i < nb; i++ {
 			base := ConvBase(r.Rng, i%2 == 1)
 			scns = append(scns, base)
 			AllSingleFaults(base, func(s Scn) { scns = append(scns, s) })
 		}
 		// random fault sequences and drift
-		n := r.Pick(300, 8000)
+		n := r.Pick(900, 8000)
 		for i := 0; i < n; i++ {
 			base := ConvBase(r.Rng, i%2 == 1)
 			scns = append(scns, Disturb(r.Rng, base, r.Rng.Intn(4), r.Rng.Intn(3)))
